@@ -401,6 +401,13 @@ func (srv *server) registerClient(connect *packets.Connect, client *client) (ses
 		}
 
 		if err == nil {
+			// Only now is the client connected: a registration that fails half-way (storage error) must leave
+			// nothing behind that the closing connection would later "unregister".
+			client.setConnected(time.Now())
+			if srv.hooks.OnConnected != nil {
+				srv.hooks.OnConnected(context.Background(), client)
+			}
+			srv.statsManager.clientConnected(client.opts.ClientID)
 			client.session = sess
 			if sessionResume {
 				// If a new Network Connection to this Session is made before the Will Delay Interval has passed,
@@ -429,12 +436,6 @@ func (srv *server) registerClient(connect *packets.Connect, client *client) (ses
 		}
 		srv.mu.Unlock()
 	}()
-
-	client.setConnected(time.Now())
-	if srv.hooks.OnConnected != nil {
-		srv.hooks.OnConnected(context.Background(), client)
-	}
-	srv.statsManager.clientConnected(client.opts.ClientID)
 
 	if oldSession != nil {
 		// The session expiry interval runs from the end of the last network connection
@@ -573,6 +574,10 @@ func (srv *server) sendWillLocked(msg *gmqtt.Message, clientID string) {
 func (srv *server) unregisterClient(client *client) {
 	srv.mu.Lock()
 	defer srv.mu.Unlock()
+	if c, ok := srv.clients[client.opts.ClientID]; ok && c != client {
+		// the client id belongs to another connection: there is nothing of this one to take down
+		return
+	}
 	now := time.Now()
 	var storeSession bool
 	if sess, err := srv.sessionStore.Get(client.opts.ClientID); sess != nil {
